@@ -27,12 +27,12 @@ RuleEval(rule, n, ctx) ==
 Start == [pm |-> FALSE, some |-> FALSE, v |-> <<>>, undet |-> FALSE, afterFallback |-> FALSE]
 
 \* one step of the fold; `undet` accumulates the corners (DESIGN.md 6.1):
-\*  - a period that exists only as the spill of a rule not matching the day is replaced or dropped
+\*  - a period that exists only as the spill of a rule not matching the day is replaced by a later
+\*    normal rule matching the day or by a fallback rule
 \*  - normal / additional rules that follow a fallback rule
 RuleStep(st, rule, n, ctx) ==
   LET cur == RuleEval(rule, n, ctx)
       spillOnlyPrev == ~st.pm /\ st.some /\ st.v # <<>>
-      spillOnlyCur  == ~cur.match /\ cur.spill
       late == st.afterFallback /\ rule.op # "fallback" /\ cur.some
   IN
   IF rule.op = "fallback" THEN
@@ -44,9 +44,10 @@ RuleStep(st, rule, n, ctx) ==
        IF cur.match
        THEN [pm |-> TRUE, some |-> TRUE, v |-> cur.v,
              undet |-> st.undet \/ late \/ spillOnlyPrev, afterFallback |-> st.afterFallback]
+       \* not matching the day: only its spill (if it matched the previous day) shows, as an overlay
        ELSE [pm |-> st.pm, some |-> st.some \/ cur.some,
-             v |-> IF st.some THEN st.v ELSE cur.v,
-             undet |-> st.undet \/ late \/ (spillOnlyCur /\ st.some), afterFallback |-> st.afterFallback]
+             v |-> IF st.some /\ cur.some THEN Addition(st.v, cur.v) ELSE IF st.some THEN st.v ELSE cur.v,
+             undet |-> st.undet \/ late, afterFallback |-> st.afterFallback]
   ELSE \* additional rule, or normal closed rule: overlay
        [pm |-> st.pm \/ cur.match, some |-> st.some \/ cur.some,
         v |-> IF st.some /\ cur.some THEN Addition(st.v, cur.v) ELSE IF st.some THEN st.v ELSE cur.v,
